@@ -207,7 +207,7 @@ def run_case(case, ctx):
     # direct path: forward error bounded by kappa * working precision
     tol = min((2000 if left is not None else 500) * eps * max(kappa, 1.0) + 100 * eps, 0.5)
     if used_lanczos:  # a jittered Lanczos (inverse) root took part: relative jitter 1e-6 on the tridiagonal matrix
-        if kappa > 100:
+        if kappa > 100 or dt == torch.float32:
             ctx.stat("lanczos_path_ill_conditioned(inconclusive)")
             return
         tol = max(tol, 1e-4 * max(kappa, 1.0))
